@@ -268,6 +268,81 @@ def refused_write_cases(ctx):
     return False
 
 
+def rewrite_after_mutation_cases(ctx):
+    """ONE record object written (and compared / hashed), then changed IN PLACE through the mutable values it holds (the
+    argument list of a command, a typed list, a dict inside a dictlist), then written again: every write stores what the
+    record holds at that moment.  Returns True when a violation was reported."""
+    from flow.record import GroupedRecord, RecordDescriptor
+    from flow.record.fieldtypes import command
+    D = RecordDescriptor("mut/rec", [("command", "cmd"), ("command[]", "cmds"), ("string[]", "tags"), ("varint[]", "nums"),
+                                     ("stringlist", "sl"), ("dictlist", "dl"), ("path", "p"), ("string", "s")])
+    H = RecordDescriptor("mut/holder", [("record", "r"), ("string", "t")])
+
+    def fresh():
+        return D(cmd="ls -l /tmp", cmds=["cat /x", "echo a b"], tags=["a"], nums=[1, 2], sl=["x"], dl=[{"k": 1}], p="/a", s="s",
+                 _generated=T0)
+
+    def mutate(r, step):
+        st = type(r.tags[0]) if r.tags else str
+        if step == 0:
+            r.cmd.args.append("--extra")
+        elif step == 1:
+            r.cmd.args[0] = "-a"
+        elif step == 2:
+            r.cmds[1].args.append("c")
+        elif step == 3:
+            r.tags.append(st("b"))
+        elif step == 4:
+            r.nums[0] = type(r.nums[1])(99)
+        elif step == 5:
+            r.sl.append("y")
+        elif step == 6:
+            r.dl[0]["k"] = 2
+        elif step == 7:
+            r.cmds.append(command("uname -a"))
+        elif step == 8:
+            del r.tags[0]
+
+    wrappers = {"plain": lambda r: r, "nested": lambda r: H(r=r, t="h", _generated=T0),
+                "grouped": lambda r: GroupedRecord("mut/grp", [r, H(r=None, t="g", _generated=T0)])}
+    for wname, wrap in wrappers.items():
+        for touch in ("none", "hash", "eq", "pack"):
+            r = fresh()
+            outer = wrap(r)
+            written_obs, chunks = [], []
+            try:
+                from flow.record import RecordStreamWriter
+                import io as _io
+                buf = _io.BytesIO()
+                w = RecordStreamWriter(buf)
+                for step in range(-1, 9):
+                    if step >= 0:
+                        mutate(r, step)
+                    written_obs.append(recgen.canon(recgen.obs_item(outer, True)))
+                    w.write(outer)
+                    if touch == "hash":
+                        hash(outer)
+                    elif touch == "eq":
+                        outer == wrap(fresh())
+                    elif touch == "pack":
+                        r._pack()
+                data = buf.getvalue()
+                w.fp = None
+                rb = [recgen.canon(recgen.obs_item(x, True)) for x in sc.read_stream_items(data)]
+                problem = None if rb == written_obs else "write #%d stored other values than the record held when it was written" % next(
+                    (i for i, (a, b) in enumerate(zip(written_obs, rb)) if a != b), min(len(rb), len(written_obs)))
+            except Exception as e:  # noqa
+                problem = "%s: %s" % (type(e).__name__, e)
+            ctx.count_case(("rewrite-after-mutation", wname, touch))
+            if problem:
+                ctx.violation("one record (%s, touched by %s between writes) written, changed in place, written again: %s" % (wname, touch, problem),
+                              dict(kind="rewrite-after-mutation", wrapper=wname, touch=touch, problem=problem,
+                                   steps="cmd.args.append / cmd.args[0]= / cmds[1].args.append / tags.append / nums[0]= / sl.append / "
+                                         "dl[0][k]= / cmds.append / del tags[0]"))
+                return True
+    return False
+
+
 def fresh_process_smoke(ctx):
     """One record of every serialisable field type (plus keyword-named fields, nested and grouped records) written and read
     in a CHILD interpreter that imports only what a user script imports, compared with the same scenario in-process: an
@@ -311,7 +386,7 @@ def search(ctx, reason):
     cases = generate_cases(ctx, 150, check_paths=False)
     if check_property(ctx, cases):
         return True
-    if refused_write_cases(ctx):
+    if refused_write_cases(ctx) or rewrite_after_mutation_cases(ctx):
         return True
     # descriptor-registry histories (same-name / identifier-coincident / nested / grouped descriptors): a record decoded
     # with another descriptor is a round-trip failure too
@@ -345,7 +420,7 @@ def run(ctx):
     if check_property(ctx, cases):
         return
     replay_findings(ctx)
-    if fresh_process_smoke(ctx) or refused_write_cases(ctx):
+    if fresh_process_smoke(ctx) or refused_write_cases(ctx) or rewrite_after_mutation_cases(ctx):
         return
     # descriptor-registry histories (same-name / identifier-coincident / nested / grouped descriptors on 1-3 writers): a record
     # decoded with another descriptor is a round-trip failure too
